@@ -244,7 +244,7 @@ pub fn install_panic_hook() {
         let quiet_thread = QUIET.with(|q| q.get());
         let name = std::thread::current().name().unwrap_or("").to_string();
         let verbose = std::env::var("VERIF_VERBOSE_PANICS").is_ok();
-        if verbose || !(quiet_thread || name.starts_with("checker-") || name.starts_with("srv-")) {
+        if verbose || !(quiet_thread || name.starts_with("checker-") || name.starts_with("srv-") || msg.starts_with("poison:") || msg.starts_with("planted panic") || msg.starts_with("verif-scheduler:")) {
             default(info);
         }
     }));
